@@ -23,7 +23,7 @@ def run(ctx):
     scen = []
     names = list(CLASSES)
     for i, p in enumerate(plans):
-        reps = 1 if quick else 3
+        reps = 1 if quick else 8
         for rep in range(reps):
             cls = [names[(i + j + rep + ctx.seed) % len(names)] for j in range(3)]
             scen.append({"id": "plan%d.%d" % (i, rep), "moves": p["moves"], "intact": p["intact"], "victim": ["client", "server"][(i + rep) % 2],
@@ -46,7 +46,7 @@ def run(ctx):
                 scen.append({"id": "bits%d" % k, "moves": [{"m": "flip", "i": 2, "r": region}], "intact": 1, "victim": victim,
                              "sizes": [100, 1427, 5], "pads": [0, 0, 0], "bits": "sample", "nsample": 40, "chunk": "random", "seed": ctx.seed + k}); k += 1
     # an endpoint's own ciphertext fed back to it (real <-> real): nothing may be delivered
-    for i in range(6 if quick else 40):
+    for i in range(6 if quick else 120):
         scen.append({"id": "reflect%d" % i, "kind": "reflect", "moves": [], "intact": 0, "victim": "", "sizes": [], "pads": [], "bits": "", "nsample": 0,
                      "chunk": "whole", "seed": ctx.seed * 7 + i})
     binary = ctx.go_build("./cmd/c05")
@@ -76,7 +76,7 @@ def run(ctx):
 def replay(ctx, path):
     v = json.load(open(path))
     # an endpoint's own ciphertext fed back to it (real <-> real): nothing may be delivered
-    for i in range(6 if quick else 40):
+    for i in range(6 if quick else 120):
         scen.append({"id": "reflect%d" % i, "kind": "reflect", "moves": [], "intact": 0, "victim": "", "sizes": [], "pads": [], "bits": "", "nsample": 0,
                      "chunk": "whole", "seed": ctx.seed * 7 + i})
     binary = ctx.go_build("./cmd/c05")
